@@ -24,9 +24,10 @@ def build_tools(chk):
 
 
 # Library variants carrying a candidate fix (corpus/C07/<file>.diff applied to a copy of src/PIP_Tree.cc), used
-# only to attribute a failure to the code a fix changes.  Empty since the row_sign and else-branch defects were
-# repaired in /repo (481d251, 7d069b5): a recurrence of either is now an ordinary VIOLATION.
-VARIANTS = {}
+# only to attribute a failure to the code a fix changes.  The row_sign and else-branch defects were repaired in /repo
+# (481d251, 7d069b5): a recurrence of either is an ordinary VIOLATION.  Still open: the third site of the
+# "non-positive taken for negative" defect (fix-8); remove the entry when that fix is committed.
+VARIANTS = {"nonstrict_negative_row": ["fix-8-unfeasible-needs-strictly-negative-row.diff"]}
 
 
 def private_harness(variant=None):
@@ -307,6 +308,7 @@ def attribute(v, T, bound):
                                        problem solved from scratch by a fresh object is judged correct
       resolved_tree_had                artificial_parameters / two_way_decision / neither: what a tree held by the object
                                        before the failing re-solve contained (the two open incremental defects need one of them)
+      vanishes_with_patch = X          the failure disappears when candidate fix X (VARIANTS) is applied to a copy of PIP_Tree.cc
       terminates_under_another_strategy_setting   a timeout that does not occur under another CUTTING x PIVOT setting
       big_parameter / answer_not_affine_in_big_parameter   (judge) the exact answer is not affine in the big parameter"""
     info = {"kind": v["kind"]}
